@@ -66,12 +66,33 @@ def main():
             out.append("ERROR scale %d %d %s" % (d0, d1, type(e).__name__))
     # exported timelines: only digests travel (documents must be byte-identical across zones)
     rng2 = rng_for(seed, "c18-exports")
+
+    def nth_sunday(y, mo, nth):        # nth = 1, 2, … or -1 for the last Sunday of the month
+        import calendar
+        days = [d for d in range(1, calendar.monthrange(y, mo)[1] + 1) if T.datetime(y, mo, d).weekday() == 6]
+        return days[nth - 1] if nth > 0 else days[-1]
+
+    def dst_instants(y):
+        """naive wall-clock instants that do not exist (spring forward) or exist twice (fall back) in the probed zones"""
+        return [T.datetime(y, 3, nth_sunday(y, 3, 2), 2, 30), T.datetime(y, 11, nth_sunday(y, 11, 1), 1, 30),      # America/New_York
+                T.datetime(y, 10, nth_sunday(y, 10, 1), 2, 15), T.datetime(y, 4, nth_sunday(y, 4, 1), 1, 45),       # Australia/Lord_Howe
+                T.datetime(y, 9, nth_sunday(y, 9, -1), 3, 0), T.datetime(y, 4, nth_sunday(y, 4, 1), 3, 0)]          # Pacific/Chatham
+
     k = 0
     while k < 60 * n:
         spec = TG.gen_spec(rng2, "quick")
         if spec["kind"] not in ("datetime", "date"):
             continue
         k += 1
+        if k % 4 == 0 and spec["kind"] == "datetime":
+            # a datum (and, for an explicit domain, an end point) on an instant that a local-time round trip in one of the zones would move
+            inst = T.to_ms(rng2.choice(dst_instants(rng2.randint(2008, 2030))))
+            span = rng2.choice([3600000, 6 * 3600000, 86400000, 5 * 86400000, 40 * 86400000])
+            for j, d in enumerate(spec["data"]):
+                d["time"] = inst if j == 0 else inst + rng2.randint(-span, span)
+            if "domain" in spec["options"]:
+                ts_ = [d["time"] for d in spec["data"]]
+                spec["options"]["domain"] = [inst if rng2.random() < 0.5 else min(ts_) - 3600000, max(max(ts_), inst) + 7200000]
         for backend in ("svg", "tikz"):
             try:
               with time_limit(30):
